@@ -218,6 +218,13 @@ def main():
     for sd in SCANNER_SEEDS:                      # every prefix of every stress seed
         b = sd.encode()
         srcs += [b[:i] for i in range(len(b))]
+    # many augmentations found out of order (elisions in nested parameter lists), after a leading "..." :
+    # three augmentations share offset 0 and the sort must keep them in order
+    LONG = ["f(...)", "x(func(...), ...)", "func(..., func(...), ...) {}", "g(func(a int, ...) (..., error) { ... }, ...)", "...", "h(..., ...)", "func(func(func(...), ...), ...)"]
+    for k in range(400 if thorough else 80):
+        parts = ["..."] if rng.random() < 0.8 else []
+        parts += [rng.choice(LONG) for _ in range(rng.randint(8, 60))]
+        srcs.append("\n".join(parts).encode())
     base = list(srcs)
     n_mut = 6000 if thorough else 900
     for k in range(n_mut):
@@ -255,6 +262,15 @@ def main():
         ck.tally("scanner_outcome", "ok, %d augmentations" % min(len(r["augs"] or []), 6))
         if mres != "ok":
             ck.mismatch("gopatch augments the source, the model says %s" % mres, rep, "corr:augment (Model/Augment.v vs internal/pgo/augment)"); continue
+        if len(m) > 6 and m[6] != "1":
+            ck.mismatch("the go/scanner token stream is not ordered by offset with 3-byte '...' tokens (hypothesis wf of C08_augment_total)", rep,
+                        "hypothesis wf of C08_augment_total (contract of go/scanner)")
+            continue
+        if len(m) > 5 and m[5] != "1":
+            ck.mismatch("the scanner's augmentations are not of the shape the no-panic theorem of rewrite needs (augs_okb = %s)" % m[5], rep,
+                        "hypothesis of C08_rewrite_in_range (ordering/disjointness of find's output)")
+            continue
+        ck.tally("augs_shape_ok", "yes")
         mout = vlib.unhx(m[2])
         maugs = [(a[0], int(a[1])) + ((int(a[2]),) if a[0] == "func" else (int(a[2]), int(a[3])) if a[0] == "dots" else ()) for a in m[3]]
         iaugs = [(a["t"], a["s"]) + ((int(a["named"]),) if a["t"] == "func" else (a["e"], int(a["named"])) if a["t"] == "dots" else ()) for a in (r["augs"] or [])]
